@@ -131,6 +131,33 @@ def batchSizesOK {α : Type} (n b : Nat) (batches : List (List (List α))) : Boo
   batches.length == numBatches n b &&
   batches.zipIdx.all fun (bt, k) => bt.all fun v => v.length == min b (n - k * b)
 
+/-- the number of rows of a batch: the length of its first column slice -/
+def batchLen {α : Type} (bt : List (List α)) : Nat := (bt.headD []).length
+
+/-- `batchSizesOK` on the batch lengths alone (used for datasets too large to spell out) -/
+def sizesOK (n b : Nat) (sizes : List Nat) : Bool :=
+  sizes.length == numBatches n b && sizes.zipIdx.all fun (l, k) => l == min b (n - k * b)
+
+theorem sizesOK_of_batchSizesOK {α : Type} (n b : Nat) (bs : List (List (List α)))
+    (h : batchSizesOK n b bs = true) (hne : ∀ bt ∈ bs, bt ≠ []) :
+    sizesOK n b (bs.map batchLen) = true := by
+  simp only [batchSizesOK, Bool.and_eq_true, beq_iff_eq, List.all_eq_true] at h
+  obtain ⟨hlen, hall⟩ := h
+  simp only [sizesOK, List.length_map, hlen, beq_self_eq_true, Bool.true_and, List.all_eq_true]
+  rintro ⟨l, k⟩ hmem
+  have hk := List.mem_zipIdx_iff_getElem?.mp hmem
+  simp only [List.getElem?_map, Option.map_eq_some_iff] at hk
+  obtain ⟨bt, hbt, hl⟩ := hk
+  have hmem' : (bt, k) ∈ bs.zipIdx := List.mem_zipIdx_iff_getElem?.mpr hbt
+  have hcols := hall (bt, k) hmem'
+  have hbtne := hne bt (List.mem_of_getElem? hbt)
+  cases bt with
+  | nil => exact absurd rfl hbtne
+  | cons v rest =>
+    have := hcols v List.mem_cons_self
+    simp only [batchLen, List.headD_cons] at hl
+    simpa [← hl] using this
+
 /-- every emitted row is a stored row (all fields of one stored row) -/
 def alignedOK {α : Type} [DecidableEq α] (cols : List (List α)) (batches : List (List (List α))) : Bool :=
   let stored := rowsOf cols (nRows cols)
